@@ -270,7 +270,7 @@ func (i idxField) SetValue(opts *options, elem value, v value) Error {
 		return raiseExpectedObject(opts, elem)
 	}
 
-	if i.i < 0 {
+	if i.i < 0 || int64(i.i) > opts.maxIdx {
 		return raiseIndexOutOfBounds(opts, elem, i.i)
 	}
 
